@@ -2,7 +2,27 @@
 From Verif.Base Require Import Bytes.
 From Verif.Eco Require Export Iface.
 From Verif.Eco.Cran Require Entry.
+From Verif.Eco.Github Require Entry.
+From Verif.Eco.Rpm Require Entry.
+From Verif.Eco.Apache Require Entry.
+From Verif.Eco.Mattermost Require Entry.
+From Verif.Eco.Hex Require Entry.
+From Verif.Eco.Semver Require Entry.
+From Verif.Eco.Gentoo Require Entry.
+From Verif.Eco.Nuget Require Entry.
+From Verif.Eco.Debian Require Entry.
+From Verif.Eco.Alpine Require Entry.
 
 Definition ecosystems : list eco := [
-  Cran.Entry.entry
+  Cran.Entry.entry;
+  Github.Entry.entry;
+  Rpm.Entry.entry;
+  Apache.Entry.entry;
+  Mattermost.Entry.entry;
+  Hex.Entry.entry;
+  Semver.Entry.entry;
+  Gentoo.Entry.entry;
+  Nuget.Entry.entry;
+  Debian.Entry.entry;
+  Alpine.Entry.entry
 ].
